@@ -214,14 +214,21 @@ pub fn sv_program(rng: &mut Rng, items: usize) -> String {
             }
             _ => {
                 let name = format!("m{}", rng.below(100));
-                if rng.coin() {
-                    out.push_str(&format!(
+                match rng.below(4) {
+                    0 | 1 => out.push_str(&format!(
                         "module {} #(parameter W = {}) (input logic clk, input rst_n, output logic [W-1:0] q);\n",
                         name,
                         number(rng)
-                    ));
-                } else {
-                    out.push_str(&format!("module {};\n", name));
+                    )),
+                    2 => {
+                        // non-ANSI header: the ANSI alternative is tried first and fails late
+                        out.push_str(&format!(
+                            "module {} #(parameter A = {}, parameter B = 2) (clk, rst_n, q);\n  input clk, rst_n;\n  output [7:0] q;\n",
+                            name,
+                            number(rng)
+                        ));
+                    }
+                    _ => out.push_str(&format!("module {};\n", name)),
                 }
                 for _ in 0..items {
                     module_item(rng, &mut out);
@@ -793,6 +800,8 @@ pub fn punct_edit(rng: &mut Rng, text: &str) -> String {
     let closers: Vec<usize> = (0..b.len()).filter(|i| matches!(b[*i], b')' | b']' | b'}')).collect();
     let seps: Vec<usize> = (0..b.len()).filter(|i| matches!(b[*i], b',' | b';')).collect();
     let mut out = text.to_string();
+    // headers come first: half of the time edit near the start
+    let closers: Vec<usize> = if closers.len() > 3 && rng.coin() { closers[..3].to_vec() } else { closers };
     match rng.below(5) {
         0 | 1 if !closers.is_empty() => {
             let i = *rng.pick(&closers);
